@@ -1,14 +1,14 @@
 (** C06 — symbolic evaluation is sound substitution.  Property theorems only.
     Proved (model EvalAbs.eval_expr, tied to eval_abs.eval_expr by exact-output correspondence): for register-only states (no
     symbolic memory cell has been written), whose bindings map non-terminal identifiers to well-formed expressions of their width,
-    and for every expression of fragments 1-2 (C05: slices included) whose identifiers conform to a name signature (width, is_reg, is_term):
+    and for every expression of fragments 1-3 (C05: slices and the shifts << >> a>> included) whose identifiers conform to a name signature (width, is_reg, is_term):
     every result eval_expr returns is well formed, has the width of the argument, and — in EVERY concrete state rho, memory and
     operator interpretation — evaluates to the value of the argument in the state where each bound identifier takes the value of
     its binding in rho.  Terminal identifiers are never substituted; memory cells are read at the substituted address.
     The proof goes through the simplifier (C05 theorem), constant evaluation of operators, conditionals with constant and
     symbolic conditions, and the empty-memory path of the overlapping-read search.
     NOT proved: states with written memory cells (overlap logic: decided by the history correspondence of C07),
-    concatenations, shifts/rotates and the operators outside the model (XNotModelled), fuel exhaustion. *)
+    concatenations, rotates and the operators outside the model (XNotModelled), fuel exhaustion. *)
 From Coq Require Import ZArith List Bool String.
 From Mx Require Import Expr Simp SimpProofs EvalAbs EvalAbsProofs.
 Import ListNotations.
@@ -34,3 +34,9 @@ Example C06_nonvacuous :
   wf (IdQ sig0) e0 = true /\ forallb (fun kv => wf (IdQ sig0) (snd kv) && (size (snd kv) =? 32)) (pool_id st0) = true /\
   (match eval_expr 30 st0 e0 with inl (Ok _) => true | _ => false end) = true.
 Proof. vm_compute. repeat split; reflexivity. Qed.
+(** shifts with constant operands go through deal_op's constant evaluation (saturating counts): ebx := 2, so  (ebx << 3) a>> ebx  is a constant *)
+Example C06_shift_consts :
+  let ebx := EId "ebx" 32 true false in
+  let e := EOp "a>>" [EOp "<<" [ebx; EInt false 32 3]; ebx] in
+  wf (IdQ sig0) e = true /\ eval_expr 30 st0 e = inl (Ok (EInt false 32 4)).
+Proof. vm_compute. split; reflexivity. Qed.
